@@ -364,13 +364,32 @@ func coveringDesigns(prop string) []*dg.Design {
 		invRes := dg.A(dg.Obj(dg.Req("total", dg.Prim("Float64")).With(dg.Validation{Min: fp(0)}), dg.F("paid", dg.Prim("Boolean"))))
 		ordersGet := dg.A(dg.Obj(dg.Req("oid", dg.Prim("Int")).With(dg.Validation{Min: fp(1)}), dg.F("verbose", dg.Prim("Boolean"))))
 		invGet := dg.A(dg.Obj(dg.Req("iid", dg.Prim("String")).With(dg.Validation{Format: "uuid"}), dg.Req("cur", dg.Prim("String")).With(dg.Validation{Enum: []any{"eur", "usd"}})))
+		// same-named methods whose HEADERS / COOKIES / response headers differ (set, validations, required-ness)
+		ordersHC := dg.A(dg.Obj(
+			dg.Req("lim", dg.Prim("Int")).With(dg.Validation{Max: fp(5)}),
+			dg.F("tag", dg.Prim("String")).With(dg.Validation{MaxLen: ip(3)}),
+			dg.F("sid", dg.Prim("String")).With(dg.Validation{MinLen: ip(2)})))
+		invHC := dg.A(dg.Obj(
+			dg.F("lim", dg.Prim("Int")).With(dg.Validation{Max: fp(50)}),
+			dg.Req("tag", dg.Prim("String")).With(dg.Validation{Enum: []any{"a", "bc"}}),
+			dg.Req("mode", dg.Prim("String")).With(dg.Validation{Pattern: "^[a-z]+$"}),
+			dg.F("sid", dg.Prim("String")).With(dg.Validation{MaxLen: ip(4)}),
+			dg.F("trk", dg.Prim("String"))))
+		ordersHCRes := dg.A(dg.Obj(dg.Req("ok", dg.Prim("Boolean")), dg.Req("rid", dg.Prim("Int")).With(dg.Validation{Min: fp(1), Max: fp(9)})))
+		invHCRes := dg.A(dg.Obj(dg.Req("ok", dg.Prim("Boolean")), dg.F("rid", dg.Prim("String")).With(dg.Validation{Enum: []any{"x", "y"}}), dg.F("etag", dg.Prim("String"))))
 		d.Services = []*dg.Service{
 			{Name: "orders", Methods: []*dg.Method{
 				{Name: "create", Payload: &ordersCreate, Result: &ordersRes, HTTP: &dg.HTTPMap{Routes: []dg.Route{{Verb: "POST", Path: "/orders"}}}},
-				{Name: "get", Payload: &ordersGet, Result: &ordersRes, HTTP: &dg.HTTPMap{Routes: []dg.Route{{Verb: "GET", Path: "/orders/{oid}"}}, Params: []dg.MapEntry{{Attr: "verbose"}}}}}},
+				{Name: "get", Payload: &ordersGet, Result: &ordersRes, HTTP: &dg.HTTPMap{Routes: []dg.Route{{Verb: "GET", Path: "/orders/{oid}"}}, Params: []dg.MapEntry{{Attr: "verbose"}}}},
+				{Name: "hc", Payload: &ordersHC, Result: &ordersHCRes, HTTP: &dg.HTTPMap{Routes: []dg.Route{{Verb: "GET", Path: "/orders/hc"}},
+					Headers: []dg.MapEntry{{Attr: "lim", Wire: "X-Lim"}, {Attr: "tag", Wire: "X-Tag"}}, Cookies: []dg.MapEntry{{Attr: "sid", Wire: "sid_c"}},
+					Responses: []dg.Response{{Status: 200, Headers: []dg.MapEntry{{Attr: "rid", Wire: "X-Rid"}}}}}}}},
 			{Name: "invoices", Methods: []*dg.Method{
 				{Name: "create", Payload: &invCreate, Result: &invRes, HTTP: &dg.HTTPMap{Routes: []dg.Route{{Verb: "POST", Path: "/invoices"}}}},
-				{Name: "get", Payload: &invGet, Result: &invRes, HTTP: &dg.HTTPMap{Routes: []dg.Route{{Verb: "GET", Path: "/invoices/{iid}"}}, Params: []dg.MapEntry{{Attr: "cur"}}}}}},
+				{Name: "get", Payload: &invGet, Result: &invRes, HTTP: &dg.HTTPMap{Routes: []dg.Route{{Verb: "GET", Path: "/invoices/{iid}"}}, Params: []dg.MapEntry{{Attr: "cur"}}}},
+				{Name: "hc", Payload: &invHC, Result: &invHCRes, HTTP: &dg.HTTPMap{Routes: []dg.Route{{Verb: "GET", Path: "/invoices/hc"}},
+					Headers: []dg.MapEntry{{Attr: "lim", Wire: "X-Lim"}, {Attr: "tag", Wire: "X-Tag"}, {Attr: "mode", Wire: "X-Mode"}}, Cookies: []dg.MapEntry{{Attr: "sid", Wire: "sid_c"}, {Attr: "trk", Wire: "trk_c"}},
+					Responses: []dg.Response{{Status: 200, Headers: []dg.MapEntry{{Attr: "rid", Wire: "X-Rid"}, {Attr: "etag", Wire: "X-Etag"}}}}}}}},
 		}
 		out = append(out, d)
 	}
